@@ -51,9 +51,12 @@ def run(R):
                 for h, body, tails in natural_loops(fn):
                     if any(p.b in body for p, _ in claims + drains):
                         v, bound = loop_bound(fn, h)
-                        if not (isinstance(bound, dict) and const_val(bound) is not None and const_val(bound) >= 1):
+                        import re as _re
+                        mN = _re.search(r"DistributedRWLockImpl<(\d+)", fn.raw.get("clsinst", "") or "")
+                        N = int(mN.group(1)) if mN else None
+                        if not (isinstance(bound, dict) and const_val(bound) is not None and N is not None and const_val(bound) == N):
                             ok = False
-                            det.append("slot loop bound is not the slot count N: %s" % expr_str(bound))
+                            det.append("a slot loop runs to %s, not to the slot count N = %s: the writer does not claim / drain every sub-lock" % (const_val(bound) if isinstance(bound, dict) else "?", N))
                 # slot index is the loop variable (ascending from 0)
                 for p, e in claims + drains:
                     idx = None
@@ -104,7 +107,9 @@ def run(R):
         ok = bool(unlocks)
         for h, body, tails in natural_loops(fn):
             v, bound = loop_bound(fn, h)
-            if not (const_val(bound) is not None and const_val(bound) >= 1):
+            import re as _re
+            mN = _re.search(r"DistributedRWLockImpl<(\d+)", fn.raw.get("clsinst", "") or "")
+            if not (const_val(bound) is not None and mN and const_val(bound) == int(mN.group(1))):
                 ok = False
         R.ob("C23.unlock-all", fn, fn.loc, ok, "all N slots released" if ok else "unlock does not cover all slots", sitekey="unlock", why=WHY)
     for q in ("lock_shared", "unlock_shared", "try_lock_shared"):
@@ -114,7 +119,9 @@ def run(R):
             for pos, node in fn.all_nodes():
                 if node.get("k") == "bin" and node.get("op") == "&":
                     l, r = strip_casts(node.get("l")), strip_casts(node.get("r"))
-                    if isinstance(l, dict) and l.get("name") == "index" and const_val(r) is not None:
+                    import re as _re
+                    mN = _re.search(r"DistributedRWLockImpl<(\d+)", fn.raw.get("clsinst", "") or "")
+                    if isinstance(l, dict) and l.get("name") == "index" and const_val(r) is not None and mN and const_val(r) == int(mN.group(1)) - 1:
                         ok = True
             R.ob("C23.unlock-all", fn, fn.loc, ok, "slot = index & kMask" if ok else "reader slot index is not masked into range", sitekey="mask@" + q, why="any thread-to-slot mapping must land on an existing slot, and lock/unlock must agree")
     R.need("C23.structure", n, 7, "DistributedRWLockImpl functions")
